@@ -19,7 +19,7 @@ import (
 
 func TestMain(m *testing.M) {
 	time.Local = time.UTC
-	ev.Describe("struct types are built at run time with reflect.StructOf from the tag grammar: a function-code tag (decimal / 0x / 0X / upper-case hex), optionally a start-of-message tag, and 1..12 fields from 19 kinds (u8, fixed-value u8, u16, u32, bool, IPv4, AddrPort, raw MAC, MacAddress, SerialNumber, Date, DateTime, SystemDate, SystemTime, HHmm, PIN, Version, and *Date/*DateTime/*HHmm) at non-overlapping offsets packed at random in 2..63, optionally moved into one embedded struct; EVERY (kind, offset) at which the field fits is enumerated as a single-field layout. Oracle: a reference encoder per kind - the encoding must equal the reference bytes at [offset, offset+width), carry the protocol id (0x17 or the tag) and function code, and be zero in every other byte; decoding must return the values; neither may panic; a wrong function code or fixed value must be rejected on decode; scribbling over the input buffer after decoding must not change the decoded value. Non-trivial = layout with >= 2 fields or a field ending at byte 63; distinct = distinct (layout, values).",
+	ev.Describe("declared layouts: function-local named struct types that share their printed name and field names but differ in offsets, function code or fixed value, used in random order in one process; concurrent first use: a freshly built layout encoded and decoded by 2..8 goroutines at once; struct types are built at run time with reflect.StructOf from the tag grammar: a function-code tag (decimal / 0x / 0X / upper-case hex), optionally a start-of-message tag, and 1..12 fields from 19 kinds (u8, fixed-value u8, u16, u32, bool, IPv4, AddrPort, raw MAC, MacAddress, SerialNumber, Date, DateTime, SystemDate, SystemTime, HHmm, PIN, Version, and *Date/*DateTime/*HHmm) at non-overlapping offsets packed at random in 2..63, optionally moved into one embedded struct; EVERY (kind, offset) at which the field fits is enumerated as a single-field layout. Oracle: a reference encoder per kind - the encoding must equal the reference bytes at [offset, offset+width), carry the protocol id (0x17 or the tag) and function code, and be zero in every other byte; decoding must return the values; neither may panic; a wrong function code or fixed value must be rejected on decode; scribbling over the input buffer after decoding must not change the decoded value. Non-trivial = layout with >= 2 fields or a field ending at byte 63; distinct = distinct (layout, values).",
 		"process zone pinned to UTC; field values from the in-domain generators of C05",
 		"a start-of-message tag of 0x19 is only generated together with function code 0x20 (the only combination the protocol defines)")
 	ev.Main(m, "C18")
@@ -527,7 +527,7 @@ func props() []rp.Prop {
 }
 
 func TestC18(t *testing.T)    { rp.RunAll(t, props()...) }
-func TestReplay(t *testing.T) { rp.ReplayAll(t, props()...) }
+func TestReplay(t *testing.T) { rp.ReplayAll(t, append(props(), namedProps()...)...) }
 
 func FuzzLayout(f *testing.F) {
 	if os.Getenv("VERIF_FUZZ") == "" {
